@@ -1256,11 +1256,14 @@ func runAll(keys []keyMat, answers map[int]answer, w *vt.Writer, full bool) {
 		pub := vt.Unhex(km.Pub)
 		s, err1 := newSigner(c, km)
 		v, err2 := newVerifier(c, pub)
-		if err1 != nil || err2 != nil {
+		if err1 != nil || err2 != nil { // coverage expectation broken (reported as exit 2 after all verdicts)
 			e := c.ev("construct")
 			e["kind"], e["err"] = fmt.Sprintf("unit: signer: %v; verifier: %v", err1, err2), true
 			w.Emit(e)
-			continue
+			if err2 != nil {
+				continue
+			}
+			u.msgs = nil // no signer: the verifier is still exercised with the reference's signatures
 		}
 		var vOther tink.Verifier
 		var pubOther []byte
